@@ -196,6 +196,27 @@ where
             let got = sw::Projective::<P>::batch_check(bp.iter()).is_ok();
             loc.check_at("batch_check_projective", got == ins, || format!("{} at position {pos} of a batch of subgroup points: Projective::batch_check ok={got} want {ins}", d()));
         }
+        // two members outside the subgroup whose cofactor parts cancel (P and -P; P and G - P): every member has to be in
+        // the subgroup, not the sum of the batch
+        if !ins {
+            loc.class("batch_check:two_bad_members_with_sum_in_subgroup");
+            let np = t.g.neg(i);
+            let gmp = t.g.mul(1, t.gen).and_then(|g| {
+                // G - P through the oracle's addition table: G + (-P)
+                (0..t.g.n()).find(|j| t.g.mul(1, *j) == Some(*j) && t.g.pts[*j] == t.m.add(t.g.pts[g], t.g.pts[np]))
+            });
+            for (what, other) in [("-P", Some(np)), ("G - P", gmp)] {
+                let Some(other) = other else { continue };
+                for idx in [vec![i, other], vec![good[0], i, other], vec![i, good[1], other]] {
+                    let ba: Vec<sw::Affine<P>> = idx.iter().map(|j| t.aff(*j)).collect();
+                    let got = sw::Affine::<P>::batch_check(ba.iter()).is_ok();
+                    loc.check_at("batch_check_affine", !got, || format!("{} together with {what} in a batch {idx:?}: Affine::batch_check accepted two points outside the subgroup", d()));
+                    let bp: Vec<sw::Projective<P>> = idx.iter().enumerate().map(|(k, j)| t.proj(*j, [2, p - 1, 1][k])).collect();
+                    let got = sw::Projective::<P>::batch_check(bp.iter()).is_ok();
+                    loc.check_at("batch_check_projective", !got, || format!("{} together with {what} in a batch {idx:?}: Projective::batch_check accepted two points outside the subgroup", d()));
+                }
+            }
+        }
         // clearing = h * P, lands in the subgroup
         for (site, q) in [("clear_cofactor", pt.clear_cofactor()), ("clear_cofactor", P::clear_cofactor(&pt)), ("mul_by_cofactor", pt.mul_by_cofactor())] {
             let j = t.idx_aff(&q);
@@ -1320,7 +1341,7 @@ fn main() {
     let mut ctx = Ctx::from_args("C12");
     ctx.require(&["on_curve_not_in_subgroup", "small_order_point", "identity", "subgroup_point", "cofactor_is_one_shortcut", "fast_clearing"]);
     ctx.require(&["large_prime_order_torsion", "large_prime_order_torsion_plus_G"]);
-    ctx.require(&["te_incomplete:torsion_point", "te_incomplete:G_plus_torsion", "clearing_homomorphism_pair", "checked_constructor:out_of_subgroup", "batch_check:one_bad_member"]);
+    ctx.require(&["te_incomplete:torsion_point", "te_incomplete:G_plus_torsion", "clearing_homomorphism_pair", "checked_constructor:out_of_subgroup", "batch_check:one_bad_member", "batch_check:two_bad_members_with_sum_in_subgroup"]);
     ctx.require(&["sample:first_draw_geq_modulus", "sample:first_x_not_on_curve", "sample:greatest", "off_curve_pair"]);
     ctx.assume("shipped curves: the membership oracle is r*P == O computed by the harness's own double-and-add over the generic projective `+=`/`double_in_place` (property C03), and point equality is decided on `into_affine()` coordinates");
     ctx.assume("scripted RNG: the k-th RNG call consumes the k-th script byte (low byte of next_u64, top byte of next_u32; remaining bits all-0 or all-1), then an incrementing counter; all scripts of the stated lengths are enumerated, so every (candidate coordinate, sign) pair of the first rejection-loop iteration is reached");
